@@ -2,6 +2,7 @@
    Statements only; every proof is `exact <lemma>`. *)
 From BBF Require Import Base.Prelude Base.Names Base.Bits Spec.Sem
      Model.Expr Model.Table Model.LibBdd Model.Bdd Proofs.ExprProofs Proofs.TableProofs Proofs.DdProofs Proofs.BddProofs Proofs.BddOps.
+From BBF Require Import Model.Lexer Model.Parser Model.Display Model.Render Model.Csv Model.Prog Proofs.ProgProofs Proofs.ConvChain Proofs.ObsProofs.
 
 (* expressions: evaluation with a default is the meaning at the completed assignment *)
 Theorem C02_expr_default : forall e rho d, eval_default e rho d = sem (complete d rho) e.
@@ -81,3 +82,17 @@ Example C02_table_example :
   let t := {| t_inputs := [[97%N]; [98%N]]; t_outputs := [false; true; true; false] |} in
   wf_table t /\ t_eval_default t [([97%N], true)] false = true /\ t_eval_checked t [([97%N], true)] = inr [[98%N]].
 Proof. repeat split. repeat constructor. Qed.
+
+(* ---- an object of any representation (what the model runner prints) ---- *)
+
+Theorem C02_object_default : forall o rho d, obj_eval_default o rho d = osem o (complete d rho).
+Proof. exact obj_eval_default_spec. Qed.
+Print Assumptions C02_object_default.
+
+Theorem C02_object_checked : forall o rho,
+  match obj_eval_checked o rho with
+  | inl b => (forall x, In x (decl o) -> get rho x <> None) /\ forall d, b = osem o (complete d rho)
+  | inr errs => errs <> [] /\ forall x, In x errs <-> In x (decl o) /\ get rho x = None
+  end.
+Proof. exact obj_eval_checked_spec. Qed.
+Print Assumptions C02_object_checked.
